@@ -126,6 +126,26 @@ def potential_values(case):
     return v
 
 
+def indep_aperture(gpts, sampling):
+    """antialias aperture recomputed from its specification (2/3-Nyquist of the coarser axis, cosine taper of the configured
+    width) with numpy only — independent of abtem.antialias and of the Lean model"""
+    import abtem
+
+    cutoff = abtem.config.get("antialias.cutoff") / max(sampling) / 2
+    taper = abtem.config.get("antialias.taper") / max(sampling)
+    kx = np.fft.fftfreq(gpts[0], sampling[0])[:, None]
+    ky = np.fft.fftfreq(gpts[1], sampling[1])[None]
+    r = np.sqrt(kx ** 2 + ky ** 2)
+    a = np.where(r <= cutoff - taper, 1.0, np.where(r > cutoff, 0.0, 0.5 * (1 + np.cos(np.pi * (r - cutoff + taper) / taper))))
+    return a
+
+
+def indep_tbl(v, sigma, gpts, sampling):
+    """band-limited transmission function of one real potential slice, recomputed independently (numpy.fft)"""
+    t = np.exp(1j * sigma * np.asarray(v, dtype=np.float64))
+    return np.fft.ifft2(indep_aperture(gpts, sampling) * np.fft.fft2(t))
+
+
 class Stepper:
     """the real `conventional_multislice_step` on raw arrays, slice by slice"""
 
@@ -136,6 +156,7 @@ class Stepper:
         self.dtype = np.complex128 if case["precision"] == "float64" else np.complex64
         v = potential_values(case).astype(np.float64 if case["precision"] == "float64" else np.float32)
         self.n = v.shape[0]
+        self.v = np.asarray(v, dtype=np.float64)
         self.pots = [PotentialArray(v[i:i + 1], slice_thickness=abs(case["dz"]), sampling=tuple(case["sampling"])) for i in range(self.n)]
 
     def step(self, arr, i, adjoint=False):
@@ -151,14 +172,31 @@ class Stepper:
         return np.asarray(w.array)
 
     def max_tbl2(self, i):
-        """(max |T_bl|², mean |T_bl|², max | |T| - 1 |) of slice i, from the real (band-limited) transmission function"""
+        """(max |T_bl|², mean |T_bl|², max | |T| - 1 |, deviation of the code's T_bl from the independent recomputation).
+        max/mean come from the INDEPENDENT recomputation, so a regression that inflates the code's T_bl cannot raise the bound."""
         from abtem.antialias import AntialiasAperture
+        from abtem.core.energy import energy2sigma
 
-        tf = self.pots[i].transmission_function(self.case["energy"])
+        c = self.case
+        tf = self.pots[i].transmission_function(c["energy"])
         dev = float(np.abs(np.abs(np.asarray(tf.array, dtype=np.complex128)) - 1).max())
         tf = AntialiasAperture().bandlimit(tf, in_place=False)
-        a2 = np.abs(np.asarray(tf.array, dtype=np.complex128)) ** 2
-        return float(a2.max()), float(a2.mean()), dev
+        code = np.asarray(tf.array, dtype=np.complex128)[0]
+        ind = indep_tbl(self.v[i], float(energy2sigma(c["energy"])), tuple(c["gpts"]), tuple(c["sampling"]))
+        a2 = np.abs(ind) ** 2
+        return float(a2.max()), float(a2.mean()), dev, float(np.abs(code - ind).max())
+
+    def step_tf(self, arr, i):
+        """the step when a (not band-limited) TransmissionFunction is handed to conventional_multislice_step"""
+        from abtem.antialias import AntialiasAperture
+        from abtem.multislice import FresnelPropagator, conventional_multislice_step
+
+        c = self.case
+        w = make_waves(np.array(arr, dtype=self.dtype), c["energy"], tuple(c["sampling"]), tuple(c["tilt"]))
+        tf = self.pots[i].transmission_function(c["energy"])
+        w = conventional_multislice_step(w, tf, FresnelPropagator(), AntialiasAperture(), conjugate=c["dz"] < 0,
+                                         transpose=c["transpose"], order=c["order"])
+        return np.asarray(w.array)
 
 
 def gen_case(ctx: Ctx, potential=None):
@@ -387,9 +425,15 @@ class C04(Property):
                 out = st.step(psi, i)
                 e1 = energy_of(out)
                 ratio = e1 / e0
-                bound, mean2, dev = st.max_tbl2(i)
+                bound, mean2, dev, tbl_dev = st.max_tbl2(i)
                 detail = dict(slice=i, ratio=ratio, max_Tbl_sq=bound, mean_Tbl_sq=mean2, e_before=e0, e_after=e1)
                 ftol = 1e-9 if case["precision"] == "float64" else 2e-5
+                if tbl_dev > (1e-9 if case["precision"] == "float64" else 3e-5):
+                    ctx.violation("bandlimited-transmission-function-differs-from-independent-recomputation", case, dict(max_abs_dev=tbl_dev, **detail))
+                # TransmissionFunction input path (no band-limit): a pure phase object never creates intensity
+                rt = energy_of(st.step_tf(psi, i)) / e0
+                if rt > 1 + tol + (3e-4 if case["precision"] == "float32" else 0):
+                    ctx.violation("pure-phase-transmission-function-step-creates-intensity", case, dict(ratio=rt, slice=i))
                 if dev > ftol:
                     ctx.violation("transmission-function-of-real-potential-not-unit-modulus", case, dict(max_dev=dev, **detail))
                 if mean2 > 1 + ftol:
@@ -454,6 +498,48 @@ class C04(Property):
                     ctx.violation("vacuum-propagation-creates-intensity-in-taper-ring", case, dict(ratio=r4))
             ctx.count(f"vacuum:order{case['order']}:tilt={'zero' if tuple(case['tilt']) == (0.0, 0.0) else 'set'}:inside={int(inside.sum())>0}")
 
+    def multislice_oracle(self, ctx: Ctx, case):
+        """the public path: a batch of waves through `Waves.multislice(Potential(atoms))`; per member
+        Σ|ψ_out|² ≤ Σ|ψ_in|² · Π_slices max|T_bl|² (proved bound, T_bl recomputed independently), and ≤ Σ|ψ_in|² whenever that product is ≤ 1"""
+        import abtem
+        import ase
+        from abtem.core.axes import OrdinalAxis
+        from abtem.core.energy import energy2sigma
+        from abtem.waves import Waves
+
+        tol = 1e-9 if case["precision"] == "float64" else 5e-5
+        with precision(case["precision"]):
+            gpts, sampling = tuple(case["gpts"]), tuple(case["sampling"])
+            rng = np.random.default_rng(case["wseed"])
+            ext = (gpts[0] * sampling[0], gpts[1] * sampling[1])
+            nat = case["natoms"]
+            pos = np.column_stack([rng.uniform(0, ext[0], nat), rng.uniform(0, ext[1], nat), rng.uniform(0.2, case["thickness"] - 0.2, nat)])
+            atoms = ase.Atoms(case["symbols"][:nat], positions=pos, cell=(ext[0], ext[1], case["thickness"]))
+            pot = abtem.Potential(atoms, gpts=gpts, slice_thickness=abs(case["dz"]), projection=case["projection"])
+            v = np.asarray(pot.build(lazy=False).array, dtype=np.float64)
+            sigma = float(energy2sigma(case["energy"]))
+            bounds = [float((np.abs(indep_tbl(v[i], sigma, gpts, sampling)) ** 2).max()) for i in range(v.shape[0])]
+            prod = float(np.prod(bounds))
+            dtype = np.complex128 if case["precision"] == "float64" else np.complex64
+            nb = case["batch"]
+            psi = (rng.normal(size=(nb,) + gpts) + 1j * rng.normal(size=(nb,) + gpts)).astype(dtype)
+            md = {} if tuple(case["tilt"]) == (0.0, 0.0) else {"base_tilt_x": case["tilt"][0], "base_tilt_y": case["tilt"][1]}
+            w = Waves(psi.copy(), energy=case["energy"], sampling=sampling, ensemble_axes_metadata=[OrdinalAxis(values=tuple(range(nb)))], metadata=md)
+            if case["lazy"]:
+                w = w.ensure_lazy()
+            out = w.multislice(pot)
+            out = np.asarray(out.compute().array)
+            e_in = (np.abs(psi.astype(np.complex128)) ** 2).sum(axis=(-2, -1))
+            e_out = (np.abs(out.astype(np.complex128)) ** 2).sum(axis=(-2, -1)).reshape(e_in.shape)
+            ratio = float((e_out / e_in).max())
+            detail = dict(ratio=ratio, product_of_max_Tbl_sq=prod, nslices=len(bounds))
+            if ratio > max(prod, 1.0) * (1 + tol * len(bounds)) + tol:
+                ctx.violation("multislice-gain-exceeds-product-of-proved-slice-bounds", case, detail)
+            elif ratio > 1 + 10 * tol:
+                ctx.violation("multislice-gain-although-all-|T_bl|<=1" if prod <= 1 + tol else
+                              "step-gain-through-bandlimited-transmission-function-with-modulus-above-one", case, detail)
+            ctx.count(f"multislice:{case['projection']}:{'lazy' if case['lazy'] else 'eager'}:batch{nb}:{'Tbl>1' if prod > 1 + tol else 'Tbl<=1'}")
+
     def conformance(self, ctx: Ctx):
         for k in range(ctx.n(40, 600)):
             case = gen_case(ctx)
@@ -465,10 +551,20 @@ class C04(Property):
             case["kind"] = "vacuum"
             self.vacuum_oracle(ctx, case)
             ctx.case(case)
+        rng = ctx.rng
+        for k in range(ctx.n(10, 120)):
+            case = gen_case(ctx, potential="atoms")
+            case.update(kind="multislice", natoms=rng.randint(1, 3), symbols=[rng.choice(["C", "Si", "Cu", "Au"]) for _ in range(3)],
+                        thickness=rng.choice([2.0, 4.0]), dz=rng.choice([0.5, 1.0, 2.0]), projection="infinite" if rng.random() < 0.8 else "finite",
+                        batch=rng.randint(1, 3), lazy=rng.random() < 0.3)
+            self.multislice_oracle(ctx, case)
+            ctx.case(case)
 
     def replay(self, ctx: Ctx, case):
         if case.get("kind") == "vacuum":
             self.vacuum_oracle(ctx, case)
+        elif case.get("kind") == "multislice":
+            self.multislice_oracle(ctx, case)
         else:
             self.oracle(ctx, case)
 
